@@ -69,6 +69,16 @@ def entry(n, raw, names, modname, in_class):
                 if isinstance(v, (types.FunctionType, staticmethod, classmethod, type)):
                     nd.add(k)
         e['nondata_inherited'] = sorted(nd)
+        # own and inherited members in lookup order: [name, 0 function/class | 1 data], for classes importing modules derive from
+        ms, seen = [], set()
+        for b in raw.__mro__:
+            if b.__module__ == 'builtins':
+                continue
+            for k, v in vars(b).items():
+                if k in names and k not in seen:
+                    seen.add(k)
+                    ms.append([k, 0 if isinstance(v, (types.FunctionType, staticmethod, classmethod, type)) else 1])
+        e['members'] = ms
         roots = set()
         for c in raw.__mro__:
             if c.__module__ != 'builtins':
